@@ -14,7 +14,9 @@ import numeric
 LEVEL = "proof"
 RULE = ("random tensor products (1-3 tensors, all tensor kinds and bra-ket "
         "symmetries, explicit/Einstein targets) probed with Term.symmetry / "
-        "Obj.symmetry in the modes all/only_contracted/only_target; "
+        "Obj.symmetry in the modes all/only_contracted/only_target, plus "
+        "every tensor kind/block/bra-ket symmetry of the vocabulary alone "
+        "with exponents 1-2 (3 thorough) through Obj.symmetry; "
         "expressions symmetrised over target permutations fed to "
         "exploit_perm_sym with all target-string / bra_ket_sym / result "
         "tensor settings; random sums fed to the by_* sort functions and "
@@ -55,6 +57,32 @@ def conv_perms(perms, ictx):
 def symmetry_cases(ctx, quick):
     rng = ctx.rng
     cases = []
+    # systematic family: every tensor kind / block / bra-ket symmetry of the
+    # vocabulary, alone, with exponents 1, 2 (3), through Obj.symmetry
+    from collections import Counter
+    occ, virt = G.pool("o", 6), G.pool("v", 6)
+    for name, kind, blocks, bkss in G.VOCAB:
+        for up_sp, lo_sp in blocks:
+            for bks in bkss:
+                for ex in ((1, 2) if quick else (1, 2, 3)):
+                    io, iv = iter(occ), iter(virt)
+                    up = [next(io) if c == "o" else next(iv) for c in up_sp]
+                    lo = [next(io) if c == "o" else next(iv) for c in lo_sp]
+                    t = G.make_tensor(name, kind, up, lo, bks) ** ex
+                    obj = Expr(t).terms[0].objects[0]
+                    cnt = Counter(s_.space_and_spin for s_ in obj.idx)
+                    if max(cnt.values(), default=0) > 4:
+                        continue
+                    try:
+                        sym = obj.symmetry()
+                    except Exception as ex_:
+                        ctx.violation(f"C10:symmetry-exception:{t}",
+                                      f"Obj.symmetry raised {ex_!r}",
+                                      {"term": str(t)}, False)
+                        continue
+                    tgs = list(dict.fromkeys(obj.idx))
+                    cases.append((f"obj-pow{ex}:all",
+                                  Expr(obj.sympy, target_idx=tgs), tgs, sym))
     n = 90 if quick else 500
     for k in range(n):
         occ, virt = G.pool("o", 6), G.pool("v", 6)
